@@ -1,6 +1,9 @@
 package eng
 
 import (
+	"strconv"
+	"go/types"
+	"go/ast"
 	"fmt"
 	"go/scanner"
 	"go/token"
@@ -378,7 +381,11 @@ func (pr *Program) LoadContracts(mirrorDir string) error {
 			}
 			fi, ok := pr.ByName[key]
 			if !ok {
-				// unbound contract: reported by the verdict stage
+				if lf := pr.literalFunc(pi, c.FuncName); lf != nil {
+					pr.ByName[key] = lf
+					lf.Contr = c
+				}
+				// otherwise: unbound contract, reported by the verdict stage
 				continue
 			}
 			fi.Contr = c
@@ -604,4 +611,43 @@ func parseLemmaHeader(s string) (string, []string, error) {
 		params = append(params, f[0]+":"+typ)
 	}
 	return name, params, nil
+}
+
+
+// literalFunc resolves "Outer$n": the n-th (1-based, source order) function literal in Outer's body, wrapped as a
+// synthetic function whose inputs are the literal's parameters and its captured variables.
+func (pr *Program) literalFunc(pi *PkgInfo, name string) *FuncInfo {
+	i := strings.LastIndexByte(name, '$')
+	if i < 0 {
+		return nil
+	}
+	n, err := strconv.Atoi(name[i+1:])
+	if err != nil || n < 1 {
+		return nil
+	}
+	outer, ok := pr.ByName[pi.Path+"|"+name[:i]]
+	if !ok || outer.Decl == nil || outer.Decl.Body == nil {
+		return nil
+	}
+	var lit *ast.FuncLit
+	k := 0
+	ast.Inspect(outer.Decl.Body, func(nd ast.Node) bool {
+		if l, ok := nd.(*ast.FuncLit); ok {
+			k++
+			if k == n {
+				lit = l
+			}
+		}
+		return lit == nil
+	})
+	if lit == nil {
+		return nil
+	}
+	sig, ok := pi.P.TypesInfo.TypeOf(lit).(*types.Signature)
+	if !ok {
+		return nil
+	}
+	obj := types.NewFunc(lit.Pos(), pi.P.Types, outer.Obj.Name()+name[i:], sig)
+	decl := &ast.FuncDecl{Name: ast.NewIdent(obj.Name()), Type: lit.Type, Body: lit.Body}
+	return &FuncInfo{Obj: obj, Decl: decl, Pkg: pi, Name: name, Lit: lit, Outer: outer}
 }
